@@ -29,6 +29,7 @@ class SimSocket(object):
         self.addr = None            # bound / connected address
         self.backlog = []           # listening: fds of established, not yet accepted connections
         self.blackhole = False      # packets silently dropped
+        self.owner = None           # index of the simulated process that owns the descriptor
 
     # -- calls made by the library
     def fileno(self):
@@ -47,13 +48,13 @@ class SimSocket(object):
         return 0
 
     def bind(self, addr):
-        if addr in self.net.listeners:
+        if addr[1] in self.net.listeners:
             raise SockError(_errno.EADDRINUSE, 'Address already in use')
         self.addr = addr
 
     def listen(self, n):
         self.state = 'listening'
-        self.net.listeners[self.addr] = self.fd
+        self.net.listeners[self.addr[1]] = self.fd      # one host per port in the simulated network
 
     def connect(self, addr):
         self.addr = addr
@@ -105,7 +106,7 @@ class SimSocket(object):
 
     def key(self):
         return (self.fd, self.state, self.peer, bytes(self.out), bytes(self.rcv), self.eof, self.err, self.addr,
-                tuple(self.backlog), self.blackhole)
+                tuple(self.backlog), self.blackhole, self.owner)
 
 
 class Net(object):
@@ -138,7 +139,7 @@ class Net(object):
 
     def closed(self, s, was):
         if was == 'listening':
-            self.listeners.pop(s.addr, None)
+            self.listeners.pop(s.addr[1], None)
         if s.fd in self.pending_connects:
             self.pending_connects.remove(s.fd)
         p = self.sockets.get(s.peer) if s.peer is not None else None
